@@ -80,7 +80,7 @@ pub fn run_case(cx: &mut UnitCtx, case: &Sx) -> String {
             let aid = a[0].int() as usize;
             let mut data = with_action!(aid, A => ActionData::new::<A>());
             let mut time = Time::<Virtual>::default();
-            let mut out = vec![format!("(pair {} [])", show_snap(&data))];
+            let mut out = vec![format!("(dres {} [])", show_snap(&data))];
             for st in a[1].list() {
                 let (_, b) = st.app();
                 let s = parse_state(&b[0]);
@@ -101,10 +101,10 @@ pub fn run_case(cx: &mut UnitCtx, case: &Sx) -> String {
                     .map(|it| show_item(it, &|e| if e == ents[0] { 0 } else { 1 }))
                     .collect();
                 if r.is_err() {
-                    out.push("(pair panic [])".into());
+                    out.push("dpanic".into());
                     break;
                 }
-                out.push(format!("(pair {} [{}])", show_snap(&data), evs.join(" ")));
+                out.push(format!("(dres {} [{}])", show_snap(&data), evs.join(" ")));
             }
             format!("(rdata [{}])", out.join(" "))
         }
